@@ -311,11 +311,11 @@ CLAIMED['C38'] = dict(
 CLAIMED['C04'] = dict(
     level='translation_validation', engine='llsym+refsem',
     text="The C text of the real TranslatorC for ~1100 (quick) / ~3000 (thorough) expression shapes is wrapped as codegen.py does, "
-         "compiled by clang-14 to LLVM IR together with the current op_semantics.c/.h, and executed symbolically by vf/llsym.py "
+         "compiled by clang-14 to LLVM IR together with the current op_semantics.c/.h and bn.c, and executed symbolically by vf/llsym.py "
          "(path forking, LLVM poison semantics, runtime functions interpreted from their own IR); z3 proves for all operand values "
          "with non-zero divisors: no undefined behaviour, no exit(), no write to stdout, result == reference value. Violations "
          "are replayed natively under UBSan.",
-    note="Native widths (<= 64 bits) only: the big-number path (bn.c) is not encoded. Trusted: z3, clang-14 (stands for the C "
-         "compiler), vf/llsym.py, vf/refsem.py.",
+    note="Native widths and the big-number path (bn.c, widths 80/128; thorough 72..256); wide products and divisions end "
+         "inconclusive (data-dependent loops). Trusted: z3, clang-14 (stands for the C compiler), vf/llsym.py, vf/refsem.py.",
     technique="symbolic execution of the compiler's LLVM IR for the generated C + runtime, SMT equivalence with refsem per path",
     design_ref="DESIGN.md §1.4, §3 C04")
